@@ -556,7 +556,7 @@ def determinism_main(seed, workers):
 def quick_plan(seed, args):
     from . import gen
 
-    n_random = args.random_runs if args.random_runs is not None else 900
+    n_random = args.random_runs if args.random_runs is not None else 800
     return [
         ("template", list(range(gen.N_TEMPLATES))),
         ("inject", list(range(gen.N_INJECT_TEMPLATES))),
